@@ -134,6 +134,13 @@ example : (⟨[[0x65, 0xcc, 0x81], [0x65]]⟩ : Str).wf ∧
   refine ⟨?_, by decide, by decide⟩
   intro c hc; simp at hc; rcases hc with rfl | rfl <;> simp
 
+-- "\r\n\n\n".index(of: "\n\n"): the needle overlaps itself; the first byte-level occurrence (offset 1) starts
+-- inside the cluster CR LF and is rejected, the aligned occurrence (cluster 1, offset 2) overlaps it — the
+-- search has to resume one byte after the rejected start, not after the rejected occurrence
+example : (⟨[[0x0d, 0x0a], [0x0a], [0x0a]]⟩ : Str).indexOf [0x0a, 0x0a] = some (1, 2) ∧
+    indexFrom [0x0d, 0x0a, 0x0a, 0x0a] [0x0a, 0x0a] 5 0 = some 1 ∧
+    Verif.Spec.Str.indexOf [[0x0d, 0x0a], [0x0a], [0x0a]] [0x0a, 0x0a] 0 = some 1 := by decide
+
 /-- **`count`** is the greedy left-to-right count of non-overlapping cluster-aligned occurrences (and
 `1 + length` for the empty needle).  `SegStable` is the segmentation assumption of the model restricted
 to what `count` uses: `remaining.slice(index + other.Length(), …)` skips as many clusters as the needle
